@@ -14,7 +14,8 @@
      disc: y1 = values, y2 = multiplicities (as rationals n/1); Len(y1) = Len(x) *)
 EXTENDS Integers, Sequences, FiniteSets, TLC, Rat, Defs, FuncOps, Json
 CONSTANTS Kind, T0, T, MaxOps, NBase,
-          Accu        \* TRUE: object 3 starts as the zero function with a single piece (the accumulator idiom)
+          Accu,       \* TRUE: object 3 starts as the zero function with a single piece (the accumulator idiom)
+          ZeroBase    \* b > 0: base function b is identically zero but keeps its breakpoints (adding it must still merge them)
 VARIABLES obj, gy, gm, bx, nops, op
 vars == <<obj, gy, gm, bx, nops, op>>
 View == <<obj, gy, gm, bx, nops>>      \* the last operation is an observation variable
@@ -23,8 +24,8 @@ Neg2 == -2
 Ids == 1..3
 Bases == 1..NBase
 \* generic piece values: distinct, mixed signs, some zeros, so that a mis-paired or dropped piece shows
-GenY1(b, k) == IF (b+k) % 4 = 0 THEN Zero ELSE Norm((IF k % 2 = 0 THEN 1 ELSE -1) * (5*b + 2*k + 1), 2*b+1)
-GenY2(b, k) == Norm((IF (k+b) % 2 = 0 THEN 1 ELSE -1) * (3*b + 7*k + 2), b+2)
+GenY1(b, k) == IF b = ZeroBase \/ (b+k) % 4 = 0 THEN Zero ELSE Norm((IF k % 2 = 0 THEN 1 ELSE -1) * (5*b + 2*k + 1), 2*b+1)
+GenY2(b, k) == IF b = ZeroBase THEN Zero ELSE Norm((IF (k+b) % 2 = 0 THEN 1 ELSE -1) * (3*b + 7*k + 2), b+2)
 GenMp(b, k) == RI(1 + ((b + 2*k) % 3))
 BaseFn(b, X) ==
    IF Kind = "disc"
